@@ -33,10 +33,16 @@ def pieces(para):
     return out
 
 
+MANY = ["  ", "    ", "   ", "     "]        # "two spaces" stands for two OR MORE: the run rotates with the position in the paragraph
+
+
 def source(para) -> str:
     text = "Lead"
+    n = len(para["items"])
     for j, (it, sep, (s, e)) in enumerate(zip(para["items"], para["seps"], pieces(para)), 1):
-        text += SEP[sep] + (s if it["k"] == "w" else s + E[it["e"]] + e)
+        sp = MANY[(j + n) % 4] + "\n" if sep == "sp2" else SEP[sep]
+        inner = MANY[(j + n + 1) % 4] + "\n" if it["e"] == "sp2" else E.get(it["e"], "")
+        text += sp + (s if it["k"] == "w" else s + inner + e)
     return text + " end\n"
 
 
